@@ -295,9 +295,27 @@ func run(c *core.Ctx) {
 	// 1. exhaustive: every history of length <= L over keys {0,1} x values {0,1} on the zero value
 	// 2. exhaustive with Clone: every history of length <= LC with exactly one Clone, acting on both handles
 	L, LC := c.N(5, 6, 5), c.N(4, 4, 4)
+	// The fan cases of part 2 (two handles, 18 alternatives) are several times larger than those of part 1:
+	// they are collected and dealt evenly among them, so that all shards cost about the same.
+	type fanCase struct{ prefix, fan []Op }
+	var part1, part2 []fanCase
+	rec(nil, 1, 0, L, false, func(p, f []Op) { part1 = append(part1, fanCase{append([]Op(nil), p...), f}) })
+	rec(nil, 1, 1, LC, true, func(p, f []Op) { part2 = append(part2, fanCase{append([]Op(nil), p...), f}) })
 	exhaustive := func(visit func(prefix, fan []Op)) {
-		rec(nil, 1, 0, L, false, visit)
-		rec(nil, 1, 1, LC, true, visit)
+		every, j := len(part1)/(len(part2)+1), 0
+		if every < 1 {
+			every = 1
+		}
+		for i, fc := range part1 {
+			visit(fc.prefix, fc.fan)
+			if (i+1)%every == 0 && j < len(part2) {
+				visit(part2[j].prefix, part2[j].fan)
+				j++
+			}
+		}
+		for ; j < len(part2); j++ {
+			visit(part2[j].prefix, part2[j].fan)
+		}
 	}
 	// 3. random histories over 0..3 x 0..3 with up to 5 clones, observed after every operation
 	// 4. unusual keys and values: negative, huge, the extreme ints (and 0, the zero value a failed lookup returns)
@@ -307,11 +325,12 @@ func run(c *core.Ctx) {
 	// 5. a model sample of the large-Bimap scripts (prefixes of small instances; the large ones are oracle-only, below)
 	samples := bigSamples(c)
 	nExtra := nRandom + nOdd + len(samples)
+	every, j := nExtra/len(samples), 0 // the (heavier) samples are spread evenly among the other extra cases
 	random := func(i int) Case {
-		if i >= nRandom+nOdd {
-			return samples[i-nRandom-nOdd]
+		if i%every == 0 && i/every < len(samples) {
+			return samples[i/every]
 		}
-		if i >= nRandom {
+		if j++; j > nRandom {
 			return Case{Univ: odd, Ops: randomOps(c.Rng, odd, 1+c.Rng.Size(40), 4), Mode: "all"}
 		}
 		n, univ := 1+c.Rng.Size(60), u4
@@ -324,7 +343,10 @@ func run(c *core.Ctx) {
 	// the (long) random cases are spread evenly among the exhaustive ones so that all shards cost about the same
 	nExh, nHist := 0, 1
 	exhaustive(func(_, fan []Op) { nExh++; nHist += len(fan) })
-	stride := nExh/nExtra + 1
+	stride := nExh / nExtra
+	if stride < 1 {
+		stride = 1
+	}
 	i, r := 0, 0
 	exec(c, Case{Univ: u2, Mode: "last"}) // the empty history: a zero-value Bimap
 	exhaustive(func(prefix, fan []Op) {
